@@ -35,6 +35,7 @@ def scenarios(tier):
                 out.append({'kind': k, 'route': route, 'state': st, 'var': 'one'})
     for route in ROUTES:
         out.append({'kind': 'tree', 'route': route, 'state': 'cold', 'var': 'two'})
+        out.append({'kind': 'file', 'route': route, 'state': 'warm', 'var': 'suffix-name'})
     if tier == 'thorough':
         for route in ROUTES:
             for k in ('file', 'tree', 'ldir'):
@@ -44,12 +45,16 @@ def scenarios(tier):
     return out
 
 
+def _name(s):
+    return 'x.trashinfo' if s['var'] == 'suffix-name' else 'x'
+
+
 def world_(s):
     route = s['route']
     B = '/home/u/w' if route == 'home' else '/mnt/v1/w'
     W = scen.base_world(mounts=['/', '/mnt/v1'], cwd=B)
     W.dir(B)
-    scen.add_entry(W, B + '/x', s['kind'])
+    scen.add_entry(W, B + '/' + _name(s), s['kind'])
     if s['var'] == 'two':
         scen.add_entry(W, B + '/y', 'file')
     if route == 'top':
@@ -88,7 +93,7 @@ def command(s, ctx):
     if s['var'] == '-i':
         argv.append('-i')
         stdin = 'y\ny\n'
-    argv.append('x')
+    argv.append(_name(s))
     if s['var'] == 'two':
         argv.append('y')
     return {'argv': argv, 'env': env, 'cwd': B, 'stdin': stdin, 'now': '2024-05-06T07:08:09'}
@@ -97,7 +102,7 @@ def command(s, ctx):
 def oracle(s, ctx, start, sb, r, at):
     W, B, td = world_(s)
     snap = sb.snapshot()
-    args = [B + '/x'] + ([B + '/y'] if s['var'] == 'two' else [])
+    args = [B + '/' + _name(s)] + ([B + '/y'] if s['var'] == 'two' else [])
     detail = {'scenario': s, 'exit': r.exit, 'err': r.err[-200:]}
     last_op = r.trace[-1][1] if r.trace else None
     key = '%s|%s|%s|%s' % (s['route'], s['kind'], s['state'], last_op if at else 'END')
